@@ -14,6 +14,8 @@ Decides:
   * memo: every early-return guard of VacancyMediated / GFCrystalcalc / VectorStarSet compares every parameter
     that the skipped body reads, and a guard keyed on the identity of a mutable repository object also compares
     attributes that every in-place mutator of that object rewrites;
+  * memoryless setters: SetRates, generate, generatematrices, Lij, VectorStarSet.generate and StarSet.generate write every
+    attribute before reading it, or reuse a stored one only under tests that depend on every argument it depends on;
   * cache invalidation: a method that replaces what cache entries are indexed by (GFstarset, NGFmax) clears the caches.
 Not decided: numerical equality of results.
 """
@@ -30,6 +32,10 @@ MEMO_EXEMPT = {('VectorStarSet', 'generate', 'threshold'): 'numerical tolerance;
 # parameter-name typing for identity keys (confirmed by reading the callers)
 PARAM_TYPES = {'starset': ('crystalStars', 'StarSet'), 'SSet': ('crystalStars', 'StarSet')}
 CACHES = ('GFvalues', 'Lvvvalues', 'etavvalues')
+# methods whose job is to (re)compute state from their arguments: what they leave behind may not depend on earlier calls
+MEMORYLESS = [('GFcalc', 'GFCrystalcalc', 'SetRates'), ('OnsagerCalc', 'VacancyMediated', 'generate'),
+              ('OnsagerCalc', 'VacancyMediated', 'generatematrices'), ('OnsagerCalc', 'VacancyMediated', 'Lij'),
+              ('crystalStars', 'VectorStarSet', 'generate'), ('crystalStars', 'StarSet', 'generate')]
 
 
 def _typed(model):
@@ -97,6 +103,8 @@ def run(model, rep, tier):
     _keyhash(model, rep, mod)
     _memo(model, rep)
     _invalidation(model, rep, mod, ci)
+    from ._common import memoryless_setters
+    memoryless_setters(model, rep, MEMORYLESS)
     rep.count('callee summaries', len(summaries))
 
 
